@@ -229,17 +229,82 @@ def coq_world(i, world, obs_classes, obs_recs, obs_funcs):
                                       clist([cstr(f) for f in obs_funcs])))
 
 
+def error_world(rng):
+    """enumerations and flags of the dump, registered or not, and error-quark functions: (name, symbol prefix, registered, quark domain)"""
+    cands = [('WebError', 'web_error'), ('Codec2Error', 'codec_2_error'), ('PlainError', 'plain_error'), ('IOErrorEnum', 'io_error'),
+             ('X11Error', 'x11_error'), ('Mode', 'mode')]
+    out = []
+    for name, prefix in rng.sample(cands, rng.randint(1, 5)):
+        default = (name, prefix) in (('WebError', 'web_error'), ('PlainError', 'plain_error'), ('Mode', 'mode'))
+        registered = rng.random() < 0.6 or not default        # a symbol prefix that is not the default spelling is known from get_type only
+        domain = None if rng.random() < 0.25 else 'foo-%s-%s' % (prefix.replace('_', '-'), rng.choice(['quark', 'domain']))
+        flags = rng.random() < 0.2
+        out.append(dict(name=name, prefix=prefix, registered=registered, domain=None if flags else domain, flags=flags))
+    return out
+
+
+def run_error_world(ck, S, ET, ew):
+    syms, dump = [], ['<?xml version="1.0"?><dump>']
+    line = 10
+    for e in ew:
+        cname = 'Foo' + e['name']
+        up = 'FOO_' + e['prefix'].upper()
+        members = [('%s_%s' % (up, m), 1 << i if e['flags'] else i, False) for i, m in enumerate(['ALPHA', 'BETA', 'GAMMA'])]
+        syms.append(S.enum_typedef(cname, members, bitfield=e['flags'], line=line))
+        if e['registered']:
+            syms.append(S.func('foo_%s_get_type' % e['prefix'], S.td('GType'), [], line=line + 5))
+            dump.append('<%s name="%s" get-type="foo_%s_get_type">%s</%s>' % (
+                'flags' if e['flags'] else 'enum', cname, e['prefix'],
+                ''.join('<member name="%s" nick="%s" value="%d"/>' % (m, m.split('_')[-1].lower(), v) for m, v, _ in members),
+                'flags' if e['flags'] else 'enum'))
+        if e['domain']:
+            syms.append(S.func('foo_%s_quark' % e['prefix'], S.td('GQuark'), [], line=line + 6))
+            dump.append('<error-quark function="foo_%s_quark" domain="%s"/>' % (e['prefix'], e['domain']))
+        line += 10
+    dump.append('</dump>')
+    case = dict(enumerations=ew)
+    try:
+        r = S.run(syms, includes=['GLib', 'GObject'], dump=ET.ElementTree(ET.fromstring(''.join(dump))), warnings=False)
+    except (Exception, SystemExit) as ex:      # noqa
+        ck.failing_input('the scanner fails while merging enumerations and error quarks: %r' % (ex,), case)
+        return
+    ns = S.gir_ns(r.root)
+    ck.count_case(case, nontrivial=len(ew) > 1, kind='error-world:%d' % len(ew))
+    top_funcs = [f.get(S.CNS + 'identifier') for f in ns.findall(S.CORE + 'function') if f.get('moved-to') is None]
+    for e in ew:
+        el = next((x for x in ns if x.tag in (S.CORE + 'enumeration', S.CORE + 'bitfield') and x.get(S.CNS + 'type') == 'Foo' + e['name']), None)
+        if el is None:
+            ck.failing_input('an enumeration is missing from the GIR', dict(case, enumeration=e['name']))
+            continue
+        if e['domain'] and el.get(S.GLIB + 'error-domain') != e['domain']:
+            ck.failing_input('an error-quark function does not give its error domain to the matching enumeration', dict(case, enumeration=e['name']),
+                             detail=el.attrib)
+        if not e['domain'] and el.get(S.GLIB + 'error-domain') is not None:
+            ck.failing_input('an enumeration without error-quark function has an error domain', dict(case, enumeration=e['name']), detail=el.attrib)
+        if e['registered']:
+            if el.get(S.GLIB + 'type-name') != 'Foo' + e['name'] or el.get(S.GLIB + 'get-type') != 'foo_%s_get_type' % e['prefix']:
+                ck.failing_input('a registered enumeration does not carry its type name and get-type function', dict(case, enumeration=e['name']),
+                                 detail=el.attrib)
+            if 'foo_%s_get_type' % e['prefix'] in top_funcs:
+                ck.failing_input('a get-type function stays in the function list', dict(case, enumeration=e['name']))
+            if (el.tag == S.CORE + 'bitfield') != e['flags']:
+                ck.failing_input('a flags type of the dump is not a bitfield (or an enum type is)', dict(case, enumeration=e['name']))
+
+
 def main(tier, seed):
     ck = Check('C12', tier, seed)
     ck.assumptions += ['the runtime dump is given as XML (the introspection binary cannot be built and run here); girepository/gdump.c is '
                        'not exercised', 'declarations are SourceSymbol trees (stub lexer)',
                        'GType names of the dump carry the namespace identifier prefix; implemented interfaces and prerequisites are known types',
-                       'enumerations, error quarks, pointer and fundamental types of the dump are not generated']
+                       'enumerations, flags and error quarks of the dump are judged by direct clauses in worlds of their own (not in the Coq model); '
+                       'pointer and fundamental types of the dump are not generated']
     ck.prove(['gen_c02.py'], models=['Model/C12Spec.vo'])
     import scanner as S
     import xml.etree.ElementTree as ET
     rng = random.Random(seed)
     n = 60 if tier == 'quick' else 900
+    for i in range(n // 2):
+        run_error_world(ck, S, ET, error_world(rng))
     items = []
     worlds = []
     for i in range(n):
@@ -269,6 +334,22 @@ def main(tier, seed):
                 if pel.get('name') == p['name'] and want != got:
                     ck.failing_input('property flags differ from the reported flag bits', dict(world=w, type=d['name'], property=p),
                                      detail=dict(expected=want, got=got))
+            ownnames = set(x['name'] for x in w['dump'])
+            for p, pel in zip(sorted(d['props'], key=lambda p: p['name']), el.findall(S.CORE + 'property')):
+                t = pel.find(S.CORE + 'type')
+                if pel.get('name') == p['name'] and p['type'] in ownnames and (t is None or t.get('name') != p['type'][3:]):
+                    ck.failing_input('the type of a property is not the reported type', dict(world=w, type=d['name'], property=p),
+                                     detail=None if t is None else t.attrib)
+            for sg in d['sigs']:
+                sel = next((x for x in el.findall(S.GLIB + 'signal') if x.get('name') == sg['name']), None)
+                if sel is None:
+                    continue
+                ps = sel.find(S.CORE + 'parameters')
+                pts = [q.find(S.CORE + 'type') for q in (ps.findall(S.CORE + 'parameter') if ps is not None else [])]
+                for want_t, t in zip(sg['params'], pts):
+                    if want_t in ownnames and (t is None or t.get('name') != want_t[3:]):
+                        ck.failing_input('the type of a signal parameter is not the reported type', dict(world=w, type=d['name'], signal=sg),
+                                         detail=None if t is None else t.attrib)
             recmap = dict((l, cbs) for l, cbs in w['recs'])
             local = d['name'][3:]
             sname = (local + 'Class') if d['k'] == 'class' else next((local + sfx for sfx in ('Iface', 'Interface') if local + sfx in recmap), None)
